@@ -2,6 +2,7 @@
 //! be replayed automatically (concrete playback ran out of memory).  Each test states
 //! the property on the failing session; it fails on the unrepaired tree and passes
 //! after the `fix:` commit.  Run by setup.sh as a regression guard (not a verdict).
+#![cfg(all(feature = "history", feature = "autocomplete", feature = "help"))]
 use embedded_cli::cli::{CliBuilder, CliHandle};
 use embedded_cli::command::RawCommand;
 use embedded_io::{ErrorType, Write};
